@@ -125,6 +125,7 @@ type Engine struct {
 	Outputs        []string
 	fbCache        map[*Term]*Term
 	unwindViolation string
+	freezeGlobalValues bool
 }
 
 type Stats struct {
